@@ -2,7 +2,9 @@
 PROP = "C14"
 LEVEL = "other"
 EXPLANATION = 'bounded stand-in: generated tables x styles x widths x indentation x ANSI/plain: rectangle, width bound, column widths, text preservation, render frame'
-TARGETS = []
+from . import io_contracts as ioc  # noqa: F401
+from . import style_contracts as sc
+TARGETS = [sc.GCW]
 LEMMAS = []
 try:
     from .C14_bounded import bounded, BOUNDED_RULE  # noqa: F401
